@@ -157,7 +157,7 @@ func C18(c *Ctx) {
 		"decided per module: section prefixes are distinct single constant bytes initialised by composite literals and never written; every store access in module code uses a key whose first segment is such a prefix (so sections cannot alias); " +
 		"each builder is injective (all segments fixed-width or length-prefixed, at most a trailing Raw); integers are big-endian (byte order = numeric order); iteration prefixes end on a segment boundary of the builders of their section; " +
 		"the stream-key parsers read exactly the offsets the builder writes and return (receiver, sender) in builder order; query callbacks re-prefix with the section they iterate. Covers all identifier/height/address values because the layout, not sampled values, is analysed."
-	r.Rules = []string{"A11.prefix-distinct", "A11.prefix-immutable", "A11.iter-end-bound", "A11.section-resolved", "A11.injective", "A11.big-endian", "A11.iter-prefix", "A11.parser", "A11.reprefix"}
+	r.Rules = []string{"A11.prefix-distinct", "A11.prefix-immutable", "A12.item-identity", "A11.iter-end-bound", "A11.section-resolved", "A11.injective", "A11.big-endian", "A11.iter-prefix", "A11.parser", "A11.reprefix"}
 	r.Trusted = []string{"address.MustLengthPrefix emits one length byte + payload and panics above 255 bytes", "sdk.KVStorePrefixIterator / prefix.Store semantics", "binary.BigEndian.PutUint64"}
 	r.NotDecided = []string{"behaviour of the IAVL store itself"}
 
@@ -206,6 +206,9 @@ func C18(c *Ctx) {
 		r.OK("A11.prefix-immutable", "none", "", "no assignment to a prefix variable outside package init")
 	}
 	r.Control("A11.prefix-immutable", "fixtures/c18", len(w.FixtureEffects(func(e ir.Effect) bool { return e.Kind == "GlobalWrite" })) > 0)
+
+	// a listed stream carries the parties of its key
+	r.Floor("stream list items checked for party identity", streamItemIdentity(c), 3)
 
 	// raw iterators never end at an ordinary key
 	{
@@ -669,11 +672,34 @@ func streamParsers(c *Ctx, builders map[string][]builderInfo) {
 	}
 }
 
+// viaCallers: f is not itself a pagination callback but a helper the callbacks share: the question is
+// answered at every function that calls it (at least one; all must agree).
+func viaCallers(c *Ctx, f *ssa.Function, depth int, q func(*ssa.Function) bool) bool {
+	if depth > 3 {
+		return false
+	}
+	n := 0
+	for _, ed := range c.W.Callers(f) {
+		if c.W.IsGenerated(ed.From) || ir.IsFixture(ed.From) {
+			continue
+		}
+		n++
+		if !q(ed.From) {
+			return false
+		}
+	}
+	return n > 0
+}
+
 // closureIteratesPrefix: f is a closure whose parent builds prefix.NewStore(_, <section var>).
 func closureIteratesPrefix(c *Ctx, f *ssa.Function, sec string) bool {
+	return closureIteratesPrefixD(c, f, sec, 0)
+}
+
+func closureIteratesPrefixD(c *Ctx, f *ssa.Function, sec string, depth int) bool {
 	p := f.Parent()
 	if p == nil {
-		return false
+		return viaCallers(c, f, depth, func(g *ssa.Function) bool { return closureIteratesPrefixD(c, g, sec, depth+1) })
 	}
 	for _, e := range prefixStores(c, p) {
 		if e.Op == "global" && e.Name == sec {
@@ -684,9 +710,13 @@ func closureIteratesPrefix(c *Ctx, f *ssa.Function, sec string) bool {
 }
 
 func closureIteratesShape(c *Ctx, f *ssa.Function, want []Seg) bool {
+	return closureIteratesShapeD(c, f, want, 0)
+}
+
+func closureIteratesShapeD(c *Ctx, f *ssa.Function, want []Seg, depth int) bool {
 	p := f.Parent()
 	if p == nil {
-		return false
+		return viaCallers(c, f, depth, func(g *ssa.Function) bool { return closureIteratesShapeD(c, g, want, depth+1) })
 	}
 	for _, e := range prefixStores(c, p) {
 		s, err := keyShape(c, c.W.Expand(e, 6), 0)
@@ -698,16 +728,19 @@ func closureIteratesShape(c *Ctx, f *ssa.Function, want []Seg) bool {
 }
 
 func prefixStores(c *Ctx, p *ssa.Function) []*ir.Expr {
+	// prefix.NewStore(_, P) built in p, or in a helper p calls to obtain its store (P in p's terms)
 	var out []*ir.Expr
-	for _, b := range p.Blocks {
-		for _, in := range b.Instrs {
-			if call, ok := in.(*ssa.Call); ok {
-				if sc := call.Common().StaticCallee(); sc != nil && sc.Name() == "NewStore" && strings.HasSuffix(sc.Pkg.Pkg.Path(), "store/prefix") {
-					out = append(out, c.W.ExprOf(call.Common().Args[1]))
-				}
+	root := c.W.FlatRoot(p)
+	seen := map[ssa.Instruction]bool{}
+	c.W.FlatWalk(root, nil, nil, func(fp ir.FPos) bool {
+		if call, ok := fp.In.(*ssa.Call); ok && !seen[fp.In] {
+			if sc := call.Common().StaticCallee(); sc != nil && sc.Name() == "NewStore" && sc.Pkg != nil && strings.HasSuffix(sc.Pkg.Pkg.Path(), "store/prefix") {
+				seen[fp.In] = true
+				out = append(out, fp.Ctx.Apply(c.W.ExprOf(call.Common().Args[1])))
 			}
 		}
-	}
+		return true
+	})
 	return out
 }
 
